@@ -13,7 +13,7 @@
    - [wf_msg m]       : plain, payload length < 2^64, text payload is UTF-8 ([is_utf8] — true by type in
      Rust), ping/pong payload <= 125 bytes (the documented precondition of write; see the note below);
      no bound on the byte values is needed;
-   - [fits cfg m]     : the reader's limits admit m: payload <= max_frame_size (None = no limit = u64
+   - [fits cfg m]     : the reader's limits allow m: payload <= max_frame_size (None = no limit = u64
      max) and, for text/binary, payload <= max_message_size;   [rd_ok cfg m] = wf_msg m /\ fits cfg m;
    - [opp r]          : the other role;
    - [live_rd]        : a read-oracle entry that is a non-empty chunk or WouldBlock (no EOF, no hard
@@ -24,6 +24,9 @@
    - [soft w]         : the reader's own write side never fails hard (every write accepts >= 1 byte or
      answers WouldBlock; every flush is Ok or WouldBlock) — needed because read() sends the pong
      replies and reports a hard write error instead of the next message;
+   - [acc_wrs T k wrs]: each of the next k transport writes accepts at least T bytes; [acc_fls k fls]:
+     each of the next k transport flushes succeeds (an "accepting" transport);
+     [res_ok_unit]    : the result of an operation is Ok(());
    - [delivered rs]   : the results of a run of calls, those equal to Err(Io(WouldBlock)) removed;
      [ok_msg m] = the result Ok(m) of a read.
    "Both directions" = the theorems are for every role r (writer r, reader opp r).
@@ -67,8 +70,21 @@ Theorem C01_writer_interleaved : forall r part cfg ops x0 w0 rs x w,
   Forall write_res_ok rs /\ x_state x = Active /\ x_additional x = None.
 Proof. exact writer_ops. Qed.
 
+(* Over an accepting transport every write and every flush returns Ok (so with C01_writer_interleaved:
+   after a final flush the wire is exactly encode_all; each pong is queued and, if write_buffer_size
+   is below the pending size, also sent by its own write call). *)
+Theorem C01_writer_accepting : forall r part cfg ops x0 w0 rs x w,
+  ctx_new r part cfg = Some x0 -> w_log w0 = [] ->
+  Forall wop_ok ops ->
+  blen (encode_all r (w_keys w0) (written ops)) <= cfg_max_write_buffer_size cfg ->
+  acc_wrs (blen (encode_all r (w_keys w0) (written ops))) (length ops) (w_wrs w0) ->
+  acc_fls (length ops) (w_fls w0) ->
+  run_ops x0 ops w0 = (rs, x, w) ->
+  Forall res_ok_unit rs.
+Proof. exact writer_accepting. Qed.
+
 (* ---------------------------------------------------------------------------------------------- *)
-(* The reader.  Role opp r, any configuration whose limits admit the messages, any pre-read part and
+(* The reader.  Role opp r, any configuration whose limits allow the messages, any pre-read part and
    any schedule whose data, after the pre-read part, are encode_all r ks ms (any keys), a write side
    that never fails hard.  For every number n of read calls: the non-WouldBlock results are
    Ok(m1), ..., Ok(mk) for some k — same kind, same bytes, same order, nothing added, dropped, split
@@ -113,6 +129,23 @@ Theorem C01_roundtrip : forall r cfgW partW ms xw0 ww0 rsw xw ww cfgR partR xr0 
   ((length ms + length (w_rds wr0) <= n)%nat -> delivered rsr = map ok_msg ms).
 Proof. exact roundtrip. Qed.
 
+(* The same with the hypothesis on the flush result replaced by its cause: an accepting transport. *)
+Theorem C01_roundtrip_accepting : forall r cfgW partW ms xw0 ww0 rsw xw ww cfgR partR xr0 wr0 n rsr xr wr,
+  ctx_new r partW cfgW = Some xw0 -> w_log ww0 = [] ->
+  blen (encode_all r (w_keys ww0) ms) <= cfg_max_write_buffer_size cfgW ->
+  acc_wrs (blen (encode_all r (w_keys ww0) ms)) (S (length ms)) (w_wrs ww0) ->
+  acc_fls (S (length ms)) (w_fls ww0) ->
+  run_ops xw0 (map OpWrite ms ++ [OpFlush]) ww0 = (rsw, xw, ww) ->
+  ctx_new (opp r) partR cfgR = Some xr0 ->
+  Forall live_rd (w_rds wr0) ->
+  partR ++ concat (map rd_payload (w_rds wr0)) = wire (w_log ww) ->
+  soft wr0 -> Forall (rd_ok cfgR) ms ->
+  run_ops xr0 (repeat OpRead n) wr0 = (rsr, xr, wr) ->
+  Forall res_ok_unit rsw /\
+  (exists k, delivered rsr = map ok_msg (firstn k ms)) /\
+  ((length ms + length (w_rds wr0) <= n)%nat -> delivered rsr = map ok_msg ms).
+Proof. exact roundtrip_accepting. Qed.
+
 (* For EVERY writer oracle (hard errors included), any interleaving of writes and flushes, at every
    moment between calls: a peer handed any prefix of what the transport accepted so far returns a
    prefix of the written messages. *)
@@ -131,19 +164,11 @@ Proof. exact roundtrip_prefix. Qed.
 
 (* ---------------------------------------------------------------------------------------------- *)
 (* Payload lengths are universally quantified; the three length-encoding boundaries as instances of
-   the general theorem (any role, keys, configuration without limits, pre-read part, schedule). *)
-Definition ex_nolimit (cfg : config) : Prop := cfg_max_message_size cfg = None /\ cfg_max_frame_size cfg = None.
-
-Lemma ex_rd_ok_binary cfg len b : ex_nolimit cfg -> len < two64 -> rd_ok cfg (MBinary (repeat b (N.to_nat len))).
-Proof.
-  intros [H1 H2] Hl. unfold rd_ok, wf_msg, fits, payload_of. rewrite H1, H2.
-  cbn [plain frame_of frame_message f_payload limit_of]. unfold blen. rewrite repeat_length, N2Nat.id.
-  unfold two64, u64_max in *. repeat split; try exact Hl; apply N.lt_succ_r; exact Hl.
-Qed.
-
+   the general theorem (any role, byte value, keys, configuration without limits — [nolimit] —,
+   pre-read part, schedule). *)
 Example C01_boundary_lengths : forall len, In len [0; 125; 126; 65535; 65536] ->
   forall r b part cfg x0 w0 ks n rs x w,
-  ex_nolimit cfg ->
+  nolimit cfg ->
   ctx_new (opp r) part cfg = Some x0 ->
   Forall live_rd (w_rds w0) ->
   part ++ concat (map rd_payload (w_rds w0)) = encode_all r ks [MBinary (repeat b (N.to_nat len))] ->
@@ -151,13 +176,7 @@ Example C01_boundary_lengths : forall len, In len [0; 125; 126; 65535; 65536] ->
   (1 + length (w_rds w0) <= n)%nat ->
   run_ops x0 (repeat OpRead n) w0 = (rs, x, w) ->
   delivered rs = [ok_msg (MBinary (repeat b (N.to_nat len)))].
-Proof.
-  intros len Hin r b part cfg x0 w0 ks n rs x w Hcfg Hn Hlive Hdata Hsoft Hle H.
-  assert (Hl : len < two64).
-  { cbn [In] in Hin. unfold two64. repeat (destruct Hin as [<-|Hin]; [reflexivity|]). contradiction. }
-  refine (proj2 (reader_run r part cfg x0 w0 ks _ n rs x w Hn Hlive Hdata Hsoft _ H) Hle).
-  constructor; [|constructor]. exact (ex_rd_ok_binary cfg len b Hcfg Hl).
-Qed.
+Proof. exact boundary_lengths. Qed.
 
 (* ---------------------------------------------------------------------------------------------- *)
 (* Non-vacuity: concrete runs (vm_compute) in which every hypothesis of C01_roundtrip holds and the
@@ -213,14 +232,15 @@ Example C01_ex_hyps :
   Forall live_rd (ex_drip (encode_all Client ex_keys ex_msgs)) /\
   blen (encode_all Client ex_keys ex_msgs) <= cfg_max_write_buffer_size (ex_cfg 0).
 Proof.
-  split; [|split; [|split]].
-  - repeat constructor; vm_compute; try reflexivity; intros X; discriminate X.
-  - split; cbn [ex_wr w_wrs w_fls]; apply Forall_forall; intros o Ho; apply repeat_spec in Ho; subst o;
-      cbn; [reflexivity|exact I].
-  - unfold ex_drip. apply Forall_forall. intros o Ho. apply in_flat_map in Ho.
-    destruct Ho as [b [_ [<-|[<-|[]]]]]; exact I.
-  - vm_compute. intros X; discriminate X.
+  split; [apply rd_okb_ok|split; [apply softb_ok|split; [apply live_rdb_ok|]]]; vm_compute; try reflexivity.
+  intros X; discriminate X.
 Qed.
+
+(* an accepting transport for C01_writer_accepting / C01_roundtrip_accepting *)
+Example C01_ex_accepting_hyps :
+  acc_wrs (blen (encode_all Client ex_keys ex_msgs)) (S (length ex_msgs)) (repeat (WrAccept 100000) 7) /\
+  acc_fls (S (length ex_msgs)) (repeat FlOk 7).
+Proof. vm_compute. repeat split; intros X; discriminate X. Qed.
 
 (* 65535 and 65536 bytes (16-bit / 64-bit length field), chunks of 4096 bytes, sizes above the chunk *)
 Fixpoint ex_chunks (fuel : nat) (n : N) (bs : bytes) : list rd_out :=
@@ -270,7 +290,9 @@ Qed.
 
 Print Assumptions C01_writer.
 Print Assumptions C01_writer_interleaved.
+Print Assumptions C01_writer_accepting.
 Print Assumptions C01_reader.
 Print Assumptions C01_reader_prefix.
 Print Assumptions C01_roundtrip.
+Print Assumptions C01_roundtrip_accepting.
 Print Assumptions C01_roundtrip_prefix.
